@@ -41,6 +41,10 @@ func exprSigWith(v ssa.Value, depth int, subst map[*ssa.Parameter]ssa.Value) str
 		return "(" + exprSigWith(x.X, depth+1, subst) + x.Op.String() + exprSigWith(x.Y, depth+1, subst) + ")"
 	case *ssa.UnOp:
 		if x.Op == token.MUL {
+			// an element staged a few instructions earlier in the same block (args[0] = v; … args[0] …)
+			if fv := forwardElemLoad(x); fv != nil {
+				return exprSigWith(fv, depth+1, subst)
+			}
 			return exprSigWith(x.X, depth+1, subst)
 		}
 		return x.Op.String() + exprSigWith(x.X, depth+1, subst)
@@ -219,14 +223,29 @@ func init() {
 				// newWithChunkMode stores the same parameter to s.chunkMode and footer.chunkMode
 				it := c.NamedType("interim").Obj()
 				var sMode, sRes ssa.Value
-				for _, st := range c.census().fieldStores[fieldKey{it, "chunkMode"}] {
+				// (stored by newWithChunkMode itself or by a helper it hands the values to: then the
+				// helper's parameter stands for the argument)
+				inNw := func(st storeSite) ssa.Value {
 					if st.fn == nw {
-						sMode = st.val
+						return st.val
+					}
+					if p, ok := st.val.(*ssa.Parameter); ok {
+						for _, site := range c.callsTo(st.fn) {
+							if site.Parent() == nw {
+								return argFor(site.Common(), p)
+							}
+						}
+					}
+					return nil
+				}
+				for _, st := range c.census().fieldStores[fieldKey{it, "chunkMode"}] {
+					if v := inNw(st); v != nil {
+						sMode = v
 					}
 				}
 				for _, st := range c.census().fieldStores[fieldKey{it, "results"}] {
-					if st.fn == nw {
-						sRes = st.val
+					if v := inNw(st); v != nil {
+						sRes = v
 					}
 				}
 				if fm := c.footerStoreIn(nw, "chunkMode"); fm == nil || fm != sMode {
@@ -581,6 +600,16 @@ func init() {
 					}
 				}
 				if enc == nil {
+					// staged: the four values of every location are written into a window of a scratch
+					// buffer, the prefix is computed from loads of that window, and what is encoded
+					// are windows of the same buffer: sized from the very values that are encoded
+					if staged, why := stagedLocations(fn, tub[0]); staged {
+						r.ok(key, name, c.pos(tub[0].Pos()), "prefix computed from the four staged values of each location; the location encoder is handed windows of the same staging buffer")
+						goto prefixWritten
+					} else if why != "" {
+						r.bad(key, name, c.pos(tub[0].Pos()), why)
+						continue
+					}
 					r.undecided(key, name, c.pos(tub[0].Pos()), "cannot find the 4-value location Add")
 					continue
 				}
@@ -589,6 +618,7 @@ func init() {
 				} else {
 					r.bad(key, name, c.pos(tub[0].Pos()), "the location byte-count prefix is computed from ["+strings.Join(pre, ", ")+"] but the locations are encoded from ["+strings.Join(enc, ", ")+"]")
 				}
+			prefixWritten:
 				// the prefix value is the accumulated totalUvarintBytes, passed alone to Add
 				okPfx := false
 				for _, add := range callsOf(fn, "(*chunkedIntCoder).Add") {
@@ -1768,4 +1798,96 @@ func (c *Ctx) allCallsOf(name string) []*ssa.Call {
 		out = append(out, callsOf(f, name)...)
 	}
 	return out
+}
+
+// forwardElemLoad: ld reads S[k] (k constant) and the closest preceding
+// instruction of the same block that stores to an element of S stores S[k]:
+// the stored value.  nil otherwise.
+func forwardElemLoad(ld *ssa.UnOp) ssa.Value {
+	ia, ok := ld.X.(*ssa.IndexAddr)
+	if !ok {
+		return nil
+	}
+	k, ok := constInt(ia.Index)
+	if !ok {
+		return nil
+	}
+	b := ld.Block()
+	idx := instrIndex(ld)
+	for i := idx - 1; i >= 0; i-- {
+		switch y := b.Instrs[i].(type) {
+		case *ssa.Store:
+			ia2, ok := y.Addr.(*ssa.IndexAddr)
+			if !ok || ia2.X != ia.X {
+				continue
+			}
+			if k2, ok := constInt(ia2.Index); ok && k2 == k {
+				return y.Val
+			}
+		case ssa.CallInstruction:
+			// a call that is handed the slice may have changed it
+			for _, a := range y.Common().Args {
+				if a == ia.X {
+					return nil
+				}
+			}
+		}
+	}
+	return nil
+}
+
+// stagedLocations: the arguments of the totalUvarintBytes call are loads of
+// elements 0..3 of a window W of a buffer B, each staged (stored) in the same
+// block before the call, and every multi-value Add of the function is handed
+// a window of the same B.
+func stagedLocations(fn *ssa.Function, tub *ssa.Call) (bool, string) {
+	if len(tub.Call.Args) != 4 {
+		return false, ""
+	}
+	bufOf := func(v ssa.Value) ssa.Value {
+		for d := 0; d < 4; d++ {
+			sl, ok := v.(*ssa.Slice)
+			if !ok {
+				return v
+			}
+			v = sl.X
+		}
+		return v
+	}
+	var buf ssa.Value
+	seen := map[int64]bool{}
+	for _, a := range tub.Call.Args {
+		ld, ok := a.(*ssa.UnOp)
+		if !ok || ld.Op != token.MUL {
+			return false, ""
+		}
+		ia, ok := ld.X.(*ssa.IndexAddr)
+		if !ok {
+			return false, ""
+		}
+		k, ok := constInt(ia.Index)
+		if !ok || forwardElemLoad(ld) == nil {
+			return false, ""
+		}
+		seen[k] = true
+		b := bufOf(ia.X)
+		if buf != nil && b != buf {
+			return false, ""
+		}
+		buf = b
+	}
+	if len(seen) != 4 {
+		return false, "the byte-count prefix is not computed from four different staged values"
+	}
+	n := 0
+	for _, add := range callsOf(fn, "(*chunkedIntCoder).Add") {
+		if len(varargValues(add.Call.Args[2])) > 0 {
+			continue // explicit values: the prefix itself, the freq/norm pair
+		}
+		n++
+		if bufOf(add.Call.Args[2]) != buf {
+			return false, "the locations are encoded from another buffer than the one the byte-count prefix was computed from"
+		}
+	}
+	return n > 0, ""
 }
